@@ -6,15 +6,16 @@ set -u
 HERE=$(cd "$(dirname "$0")/.." && pwd)
 WT=${SWEEP_WT:-/tmp/sweep_wt}
 BR=${SWEEP_BUILD:-/tmp/sweep_build}
+SO=${SWEEP_OUT:-/tmp/sweep_out}
 OUT=$HERE/seeded/_sweep
 mkdir -p "$OUT"
-IDS=${@:-$(ls "$HERE/seeded" | grep -E '^C[0-9]+[ABC]$')}
-cleanup() { git -C /repo worktree remove --force "$WT" 2>/dev/null; rm -rf "$WT" "$BR" /tmp/sweep_out; }
+IDS=${@:-$(ls "$HERE/seeded" | grep -E '^C[0-9]+[A-Z]$')}
+cleanup() { git -C /repo worktree remove --force "$WT" 2>/dev/null; rm -rf "$WT" "$BR" "$SO"; }
 trap cleanup EXIT
 cleanup
 git -C /repo worktree add --detach "$WT" HEAD >/dev/null 2>&1 || { echo "cannot create worktree"; exit 2; }
-mkdir -p "$BR" /tmp/sweep_out
-export VERIF_REPO=$WT VERIF_BUILD_ROOT=$BR VERIF_OUT=/tmp/sweep_out CCACHE_DIR=$HERE/.build/ccache
+mkdir -p "$BR" "$SO"
+export VERIF_REPO=$WT VERIF_BUILD_ROOT=$BR VERIF_OUT=$SO CCACHE_DIR=$HERE/.build/ccache
 cd "$HERE"
 for id in $IDS; do
   chk=${id%?}
@@ -24,4 +25,4 @@ for id in $IDS; do
   v=$(grep -A1 "^VIOLATION" "$OUT/$id.log" | grep -v "^VIOLATION\|^--" | head -1 | cut -c1-300)
   echo "$id: check $chk exit $rc; $(grep -c '^VIOLATION' "$OUT/$id.log") violation line(s); first: $v" >"$OUT/$id.txt"
 done
-cat "$OUT"/C*.txt
+for id in $IDS; do cat "$OUT/$id.txt"; done
